@@ -138,7 +138,7 @@ Definition agreement_fixed_alt (ph0 ph1 : phasing2) : list bool :=
 
 (* >>> THE ONE DEFINITION TO SWITCH after compare_pair is repaired in /repo:
        replace agreement_current by agreement_fixed (or agreement_fixed_alt) on the next line. <<< *)
-Definition agreement : phasing2 -> phasing2 -> list bool := agreement_current.
+Definition agreement : phasing2 -> phasing2 -> list bool := agreement_fixed_alt.
 
 (* number of positions marked 0 (= disagreement) in the agreement vector *)
 Definition zeros (v : list bool) : nat := length (filter negb v).
